@@ -33,8 +33,9 @@ Proof. vm_compute. split; reflexivity. Qed.
 
 (* ---- the same encoder at memory level (hcobs/GeoEnc.v: EncoderState writing into the geometry-faithful OwningIovec of
    iovec/Geo.v through push / push_copy / register_patch / backfill_or_panic) ----
-   For every history of encode (borrowed) and encode_copy calls interleaved with consumer Reads: if the run returns (no
-   arena capacity overflow), what the Reads handed out followed by the bytes left in the iovec after finish is the reference
+   For every history of encode (borrowed), encode_copy and encode_read (read_n into the iovec's own arena, the anchored
+   slice encoded piecewise between copies and placeholder writes into the same arena, its anchor queued) calls interleaved
+   with consumer Reads: if the run returns (no arena capacity overflow), what the Reads handed out followed by the bytes left in the iovec after finish is the reference
    encoding of the concatenated input -- to which C01_byte_level applies: any segmentation of it decodes to the input. *)
 From WP Require iovec.Geo hcobs.GeoEnc hcobs.GeoEncProofs.
 Theorem C01_geo_encoder (mi ms : nat) ops e h g ge' h' g' out hf gf (dec_pieces : list (list byte)) :
